@@ -95,3 +95,17 @@ claim('C04', 'translation_validation',
       _TB + '; the reference layout in vf/props/c04.py is transcribed from the property statement.',
       'symbolic execution of the real builder + decoded-bytes vs reference layout (SMT equality per value)',
       'DESIGN.md 3/C04')
+
+claim('C03', 'translation_validation',
+      'For every unit-generator class whose audio constructor delegates directly to the generic expansion (8 classes '
+      'quick, all 127 found by introspection thorough), for arithmetic operators between units, channel lists, plain '
+      'lists and numbers (reflected forms included) and for 10 ChannelList convenience methods: every combination of '
+      'argument shapes (scalar, lists of 1..3, two ragged nestings) is built twice by the real SynthDef -- once as the '
+      'multichannel call and once as the single-channel calls the wrap-and-zip law prescribes -- and the two decoded '
+      'definitions must be identical, the result shaped like the reference, one unit per combination; tuples stay '
+      'opaque; Out receives the array with zeros (symbolic numbers, == 0 forked by the solver) replaced by one '
+      'audio-rate silence.',
+      _TB + '; element values are concrete (the law is structural), so this check is complete enumeration of the '
+      'stated shape space through the decision tree; the solver decides the zero-replacement family.',
+      'decision-tree exploration of the real expansion code + decoded-definition equality against the law\'s reference '
+      'expansion', 'DESIGN.md 3/C03')
